@@ -193,6 +193,10 @@ func (huc *htpasswdUserCache) Close() {
 }
 
 func (huc *htpasswdUserCache) Match(username string, password string) bool {
+	if huc.userFileObject == nil {
+		// the user file could not be read when the cache was created
+		return false
+	}
 	return huc.userFileObject.Match(username, password)
 }
 
